@@ -13,6 +13,7 @@ type RepoSpec struct {
 	Base     SynthSpec `json:"base"`
 	Variants [][]Edit  `json:"variants"` // variant 0 = base itself (no edits) is implicit
 	TableOf  []int     `json:"table_of"` // per commit: index into variants (0 = base)
+	AltPK    []bool    `json:"alt_pk,omitempty"` // per commit: use the variant ingested under the composite key (id, c1): same blocks, other indices
 }
 
 func GenRepoSpec(r *Rand, maxCommits, maxRows int) RepoSpec {
@@ -37,6 +38,12 @@ func GenRepoSpec(r *Rand, maxCommits, maxRows int) RepoSpec {
 	sp.TableOf = make([]int, n)
 	for i := range sp.TableOf {
 		sp.TableOf[i] = r.Intn(nv + 1)
+	}
+	if r.Chance(0.3) {
+		sp.AltPK = make([]bool, n)
+		for i := range sp.AltPK {
+			sp.AltPK[i] = r.Chance(0.5)
+		}
 	}
 	return sp
 }
@@ -64,6 +71,7 @@ func (sp *RepoSpec) Validate() error {
 type BuiltRepo struct {
 	Commits   [][]byte // sums per graph node
 	Tables    [][]byte // sums per variant (0 = base)
+	AltTables [][]byte // same variants ingested under pk (id, c1); nil entries where not built
 	TableRows [][][]string
 	Cols, PK  []string
 }
@@ -82,6 +90,14 @@ func (sp *RepoSpec) Build(t *testing.T, st *Store) (*BuiltRepo, error) {
 		}
 		br.Tables = append(br.Tables, sum)
 		br.TableRows = append(br.TableRows, rs)
+		var alt []byte
+		if len(sp.AltPK) > 0 && len(cols) >= 2 {
+			alt, err = ingestPlain(t, st, cols, []string{cols[0], cols[1]}, rs)
+			if err != nil {
+				return nil, fmt.Errorf("ingest alt variant: %v", err)
+			}
+		}
+		br.AltTables = append(br.AltTables, alt)
 	}
 	var err error
 	br.Commits, err = sp.Graph.Materialise(st, func(i int) []byte {
@@ -91,6 +107,9 @@ func (sp *RepoSpec) Build(t *testing.T, st *Store) (*BuiltRepo, error) {
 		}
 		if v < 0 || v >= len(br.Tables) {
 			v = 0
+		}
+		if i < len(sp.AltPK) && sp.AltPK[i] && br.AltTables[v] != nil {
+			return br.AltTables[v]
 		}
 		return br.Tables[v]
 	})
